@@ -1,0 +1,42 @@
+//go:build verif
+
+package vhost
+
+import "sort"
+
+// VerifRoute is one registered (domain, location, httpUser) triple.
+type VerifRoute struct {
+	Domain   string
+	Location string
+	HTTPUser string
+}
+
+// VerifRoutes returns all registered routes, read under the router's lock.
+func (r *Routers) VerifRoutes() []VerifRoute {
+	r.mutex.RLock()
+	defer r.mutex.RUnlock()
+	var out []VerifRoute
+	for _, byUser := range r.indexByDomain {
+		for _, vrs := range byUser {
+			for _, vr := range vrs {
+				out = append(out, VerifRoute{Domain: vr.domain, Location: vr.location, HTTPUser: vr.httpUser})
+			}
+		}
+	}
+	sort.Slice(out, func(i, j int) bool {
+		a, b := out[i], out[j]
+		if a.Domain != b.Domain {
+			return a.Domain < b.Domain
+		}
+		if a.Location != b.Location {
+			return a.Location < b.Location
+		}
+		return a.HTTPUser < b.HTTPUser
+	})
+	return out
+}
+
+// VerifRoutes returns the routes registered at the muxer (https / tcpmux).
+func (v *Muxer) VerifRoutes() []VerifRoute {
+	return v.registryRouter.VerifRoutes()
+}
